@@ -35,8 +35,9 @@ def cases(tier, seed):
         for pat in itertools.product([False, True], repeat=L):
             for ddof in (0, 1):
                 for f in ("nanvar", "nanstd"):
-                    out.append({"kind": "var", "func": f, "L": L, "nulls": list(pat), "ddof": ddof,
-                                "name": f"nanops.{f}/float64/len={L}/null pattern {''.join('n' if p else 'v' for p in pat)}/ddof={ddof}"})
+                    for T in ((1, 2) if tier == "quick" else (1, 2, 3, L + 1)):
+                        out.append({"kind": "var", "func": f, "L": L, "nulls": list(pat), "ddof": ddof, "threads": T,
+                                    "name": f"nanops.{f}/float64/len={L}/null pattern {''.join('n' if p else 'v' for p in pat)}/ddof={ddof}/n_threads={T}"})
     for shape in ((2, 2), (3, 2), (2, 3)) if tier == "quick" else ((1, 1), (2, 2), (3, 2), (2, 3), (3, 3)):
         for dt in ("float64", "int64"):
             out.append({"kind": "dot", "shape": list(shape), "dtype": dt, "name": f"nb_dot/{dt}/shape={shape}"})
@@ -176,7 +177,7 @@ def run_var(E, case):
     try:
         def body():
             arr = A(xs, "float64").tag("input:arr")
-            return no[case["func"]](arr, ddof=ddof)
+            return no[case["func"]](arr, ddof=ddof, n_threads=case.get("threads", 1))
         paths = run_paths(body)
         bads = []
         valid = [vs[i] for i in range(L) if not nulls[i]]
@@ -265,7 +266,7 @@ def replay(case, conc, cand=None):
             import warnings
             with warnings.catch_warnings():
                 warnings.simplefilter("ignore")
-                got = getattr(rn, case["func"])(arr, ddof=case["ddof"])
+                got = getattr(rn, case["func"])(arr, ddof=case["ddof"], n_threads=case.get("threads", 1))
                 exp = (real_np.nanvar if case["func"] == "nanvar" else real_np.nanstd)(arr, ddof=case["ddof"])
             n = int(real_np.sum(~real_np.isnan(arr)))
             if n - case["ddof"] <= 0:
